@@ -4,6 +4,7 @@ import (
 	"fmt"
 	"math/rand"
 	"os"
+	"runtime"
 	"strconv"
 	"sync"
 	"sync/atomic"
@@ -56,8 +57,32 @@ func c18kinds(rng *rand.Rand, n int, allowAdds bool) []string {
 	return out
 }
 
+var c18Kinds = []string{"direct", "analytic", "cep", "tumbling", "sliding", "session", "counting", "global"}
+
+var c18SQL = map[string]string{
+	"direct":   "SELECT id FROM stream",
+	"analytic": "SELECT id, lag(id) AS prev FROM stream",
+	"cep":      "SELECT * FROM stream MATCH_RECOGNIZE (ORDER BY ts PATTERN (A+) DEFINE A AS v > 0)",
+	"tumbling": "SELECT COUNT(*) AS c FROM stream GROUP BY TumblingWindow('20ms')",
+	"sliding":  "SELECT COUNT(*) AS c FROM stream GROUP BY SlidingWindow('40ms','20ms')",
+	"session":  "SELECT k, COUNT(*) AS c FROM stream GROUP BY k, SessionWindow('20ms')",
+	"counting": "SELECT COUNT(*) AS c FROM stream GROUP BY CountingWindow(3)",
+	"global":   "SELECT k, COUNT(*) AS c FROM stream GROUP BY k, GLOBAL WINDOW TRIGGER WHEN COUNT(*) >= 3",
+}
+
 func (c18) Gen(rng *rand.Rand, tier string, idx int) Case {
 	var c Case
+	if tier == "thorough" && idx%10 == 9 {
+		// free-running stress over the eight query kinds (search only, DESIGN §3.5)
+		kind := c18Kinds[(idx/10)%len(c18Kinds)]
+		c.Cfg = [][]string{append([]string{"async"}, c18kinds(rng, rng.Intn(3), true)...),
+			append([]string{"sync"}, c18kinds(rng, 1+rng.Intn(2), true)...),
+			{"qcap", strconv.Itoa(1 + rng.Intn(3))}, {"calls", "0"}, {"adds", "0"},
+			{"strat", []string{"drop", "block", "expand"}[rng.Intn(3)]}}
+		c.Ops = [][]string{{"free", kind, strconv.Itoa(40 + rng.Intn(160))}}
+		c.Stat = append(c.Stat, "sched-free-running", "kind-"+kind)
+		return c
+	}
 	asyncs := c18kinds(rng, rng.Intn(3), true)
 	syncs := c18kinds(rng, rng.Intn(3), true)
 	if idx%6 == 0 { // re-entrant sync sink
@@ -154,12 +179,14 @@ type c18run struct {
 	th     map[string]*c19Thread
 	calls  int
 	adds   int
-	nextID int
+	nextID int64 // accessed atomically (a blocked caller goroutine is not ordered with the scheduler)
 	mu     sync.Mutex
 	seen   []int
 	seenAt int
 	refs   []int
 	refsAt int
+	pans   []string // panics that escaped from a public API call
+	pansAt int
 	done   bool // some Stop call has closed `done`
 	emitID int  // id of the Emit call in progress (-1 = none)
 	rr     int
@@ -201,6 +228,10 @@ func (r *c18run) collect(pre [][]string) [][]string {
 		out = append(out, []string{"refused", strconv.Itoa(id)})
 	}
 	r.refsAt = len(r.refs)
+	for _, n := range r.pans[r.pansAt:] {
+		out = append(out, []string{"panicked", n})
+	}
+	r.pansAt = len(r.pans)
 	r.mu.Unlock()
 	for _, n := range c18Names {
 		t := r.th[n]
@@ -235,10 +266,10 @@ func (r *c18run) doStep(t *c19Thread) [][]string {
 	var pre [][]string
 	r.s.clearMarks()
 	if t.name == "c0" && t.point == "sync.call" {
-		pre = append(pre, []string{"sync", strconv.Itoa(r.nextID)})
+		pre = append(pre, []string{"sync", strconv.Itoa(int(atomic.LoadInt64(&r.nextID)))})
 	}
 	if t.name == "e0" && t.point == "emit.call" {
-		r.emitID = r.nextID // the Emit call in progress; reported when it returns
+		r.emitID = int(atomic.LoadInt64(&r.nextID)) // the Emit call in progress; reported when it returns
 	}
 	r.s.release(t)
 	r.s.settle()
@@ -262,7 +293,7 @@ func (r *c18run) op(op []string) [][]string {
 			picked := false
 			for k := 0; k < n; k++ {
 				idx := (r.rr + k) % n
-				if t := r.th[c18Names[idx]]; r.steppable(t) {
+				if t := r.th[c18Names[idx]]; r.steppable(t) && !((t.name == "s0" || t.name == "s1") && t.point == "stop.call") {
 					out = append(out, r.doStep(t)...)
 					r.rr = idx + 1
 					picked = true
@@ -294,7 +325,182 @@ func (r *c18run) op(op []string) [][]string {
 	return [][]string{{"bad-op"}}
 }
 
+// c18free: one free-running round on the real scheduler. Producers, an EmitSync caller, AddSink,
+// GetStats and TriggerWindow callers run concurrently; two Stop calls start when half of the rows
+// are out; afterwards a few more calls are made. The log is ordered by a mutex.
+func c18free(c Case, kind string, n int) ([][]string, string) {
+	perf := types.DefaultPerformanceConfig()
+	perf.BufferConfig.DataChannelSize = 64
+	perf.BufferConfig.MaxBufferSize = 256
+	perf.OverflowConfig.Strategy = "drop"
+	if v := c19cfgGet(c, "strat"); len(v) > 0 {
+		perf.OverflowConfig.Strategy = v[0]
+	}
+	perf.OverflowConfig.BlockTimeout = 0
+	perf.WorkerConfig.SinkPoolSize = c19cfgInt(c, "qcap", 1)
+	perf.WorkerConfig.SinkWorkerCount = 2
+	base := runtime.NumGoroutine()
+	ssql := streamsql.New(streamsql.WithDiscardLog(), streamsql.WithCustomPerformance(perf))
+	if err := ssql.Execute(c18SQL[kind]); err != nil {
+		return [][]string{{"execute-error"}}, "execute-error"
+	}
+	var mu sync.Mutex
+	var log [][]string
+	add := func(l ...string) { mu.Lock(); log = append(log, l); mu.Unlock() }
+	var mk func(kind string) func([]map[string]interface{})
+	mk = func(sk string) func([]map[string]interface{}) {
+		return func(res []map[string]interface{}) {
+			id := -1
+			if len(res) > 0 {
+				id = c19asInt(res[0]["id"])
+			}
+			add("sink", strconv.Itoa(id))
+			switch sk {
+			case "panics":
+				panic("sink panic (harness)")
+			case "adds":
+				ssql.AddSink(mk("plain"))
+			}
+		}
+	}
+	for _, k := range c19cfgGet(c, "async") {
+		ssql.AddSink(mk(k))
+	}
+	for _, k := range c19cfgGet(c, "sync") {
+		ssql.AddSyncSink(mk(k))
+	}
+	guard := func(name string, f func()) {
+		defer func() {
+			if x := recover(); x != nil {
+				add("panicked", name)
+			}
+		}()
+		f()
+	}
+	row := func(id int) map[string]interface{} {
+		return map[string]interface{}{"id": id, "k": []string{"a", "b"}[id%2], "v": id%3 - 1, "ts": int64(id)}
+	}
+	half := make(chan struct{})
+	var sent int64
+	var wg sync.WaitGroup
+	for p := 0; p < 2; p++ {
+		wg.Add(1)
+		go func(p int) {
+			defer wg.Done()
+			for i := 0; i < n; i++ {
+				id := 2 * (p*n + i)
+				add("emit", strconv.Itoa(id))
+				guard("e0", func() { ssql.Emit(row(id)) })
+				if atomic.AddInt64(&sent, 1) == int64(n) {
+					close(half)
+				}
+			}
+		}(p)
+	}
+	wg.Add(4)
+	go func() { // EmitSync
+		defer wg.Done()
+		for i := 0; i < n/2; i++ {
+			id := 2 * (2*n + i)
+			add("sync", strconv.Itoa(id))
+			guard("c0", func() {
+				if _, err := ssql.EmitSync(row(id)); err != nil {
+					add("refused", strconv.Itoa(id))
+				}
+			})
+		}
+	}()
+	go func() { // AddSink
+		defer wg.Done()
+		for i := 0; i < 3; i++ {
+			guard("a0", func() { ssql.AddSink(mk("plain")) })
+			runtime.Gosched()
+		}
+	}()
+	go func() { // GetStats
+		defer wg.Done()
+		for i := 0; i < n; i++ {
+			guard("g0", func() { ssql.GetStats() })
+		}
+	}()
+	go func() { // TriggerWindow
+		defer wg.Done()
+		for i := 0; i < n/4; i++ {
+			guard("t0", func() { ssql.TriggerWindow() })
+			runtime.Gosched()
+		}
+	}()
+	var swg sync.WaitGroup
+	for _, sn := range []string{"s0", "s1"} {
+		swg.Add(1)
+		go func(sn string) {
+			defer swg.Done()
+			<-half
+			guard(sn, func() { ssql.Stop() })
+		}(sn)
+	}
+	swg.Wait()
+	// both Stop calls have returned: from here on no sink may run
+	add("th", "s0", "stop.flag")
+	add("th", "s0", "fin")
+	wg.Wait()
+	for i := 0; i < 3; i++ {
+		id := 2 * (3*n + i)
+		add("emit", strconv.Itoa(id))
+		guard("e0", func() { ssql.Emit(row(id)) })
+	}
+	id := 2 * (3*n + 3)
+	add("sync", strconv.Itoa(id))
+	guard("c0", func() {
+		if _, err := ssql.EmitSync(row(id)); err != nil {
+			add("refused", strconv.Itoa(id))
+		}
+	})
+	// every goroutine of the instance must be gone; then nothing can be invoked any more
+	deadline := time.Now().Add(2 * time.Second)
+	for runtime.NumGoroutine() > base && time.Now().Before(deadline) {
+		time.Sleep(time.Millisecond)
+	}
+	if runtime.NumGoroutine() > base {
+		add("goroutines-left", strconv.Itoa(runtime.NumGoroutine()-base))
+	}
+	mu.Lock()
+	out := append([][]string{}, log...)
+	mu.Unlock()
+	why := ""
+	after := false
+	for _, l := range out {
+		switch {
+		case l[0] == "th" && l[2] == "fin":
+			after = true
+		case l[0] == "sink" && after:
+			why = "stop-barrier"
+		case l[0] == "panicked":
+			why = "panic"
+		case l[0] == "goroutines-left":
+			why = "leak"
+		}
+	}
+	return out, why
+}
+
 func (c18) Exec(c Case) [][][]string {
+	if len(c.Ops) == 1 && len(c.Ops[0]) == 3 && c.Ops[0][0] == "free" {
+		n, _ := strconv.Atoi(c.Ops[0][2])
+		out, why := c18free(c, c.Ops[0][1], n)
+		if why == "" {
+			return [][][]string{out}
+		}
+		// a failure seen free-running counts only if it reproduces 3 of 3 times with the same input
+		for i := 0; i < 2; i++ {
+			o2, w2 := c18free(c, c.Ops[0][1], n)
+			if w2 == "" {
+				return [][][]string{append([][]string{{"anomaly-unreproduced", why}}, o2...)}
+			}
+			out = o2
+		}
+		return [][][]string{out}
+	}
 	perf := types.DefaultPerformanceConfig()
 	perf.BufferConfig.DataChannelSize = 64
 	perf.BufferConfig.ResultChannelSize = 4096
@@ -361,8 +567,17 @@ func (c18) Exec(c Case) [][][]string {
 		r.ssql.AddSyncSink(mk(k))
 	}
 	var wg sync.WaitGroup
-	var nextSync int64 = -1
-	_ = nextSync
+	// guard runs one public API call; a panic that escapes is an observable
+	guard := func(name string, f func()) {
+		defer func() {
+			if x := recover(); x != nil {
+				r.mu.Lock()
+				r.pans = append(r.pans, name)
+				r.mu.Unlock()
+			}
+		}()
+		f()
+	}
 	emits := 0
 	for _, op := range c.Ops {
 		if len(op) == 1 && op[0] == "emit" {
@@ -375,9 +590,8 @@ func (c18) Exec(c Case) [][][]string {
 		s.bind("e0")
 		for i := 0; i < emits; i++ {
 			s.yield("emit.call")
-			id := r.nextID
-			r.nextID += 2
-			r.ssql.Emit(map[string]interface{}{"id": id})
+			id := int(atomic.AddInt64(&r.nextID, 2) - 2)
+			guard("e0", func() { r.ssql.Emit(map[string]interface{}{"id": id}) })
 		}
 		s.finish("e0")
 	}()
@@ -387,13 +601,14 @@ func (c18) Exec(c Case) [][][]string {
 		for i := 0; i < r.calls; i++ {
 			s.yield("sync.call")
 			// the scheduler goroutine is waiting for this thread: nextID is stable here
-			id := r.nextID
-			r.nextID += 2
-			if _, err := r.ssql.EmitSync(map[string]interface{}{"id": id}); err != nil {
-				r.mu.Lock()
-				r.refs = append(r.refs, id)
-				r.mu.Unlock()
-			}
+			id := int(atomic.AddInt64(&r.nextID, 2) - 2)
+			guard("c0", func() {
+				if _, err := r.ssql.EmitSync(map[string]interface{}{"id": id}); err != nil {
+					r.mu.Lock()
+					r.refs = append(r.refs, id)
+					r.mu.Unlock()
+				}
+			})
 		}
 		s.finish("c0")
 	}()
@@ -402,7 +617,7 @@ func (c18) Exec(c Case) [][][]string {
 		s.bind("a0")
 		for i := 0; i < r.adds; i++ {
 			s.yield("add.call")
-			r.ssql.AddSink(mk("plain"))
+			guard("a0", func() { r.ssql.AddSink(mk("plain")) })
 		}
 		s.finish("a0")
 	}()
@@ -411,7 +626,7 @@ func (c18) Exec(c Case) [][][]string {
 			defer wg.Done()
 			s.bind(n)
 			s.yield("stop.call")
-			r.ssql.Stop()
+			guard(n, func() { r.ssql.Stop() })
 			s.finish(n)
 		}(n)
 	}
@@ -440,5 +655,3 @@ func (c18) Exec(c Case) [][][]string {
 	}
 	return obs
 }
-
-var _ = atomic.AddInt64
